@@ -185,6 +185,45 @@ fn clif_prelude() {
     }
 }
 
+/// C12 (Cranelift): prepare_jump_blocks at ANY position of a program of ANY admissible length - the only
+/// program-counter arithmetic of cranelift.rs (the per-opcode harnesses put the instruction at pc 0 of four).
+/// For every jump / exit the verifier accepts: no panic, the instruction's entry maps to the blocks of
+/// pc+1 and of pc+1+off (0 displacement for exit), at most two blocks are created.
+#[kani::proof]
+#[kani::unwind(14)]
+fn clif_prepare_jump_blocks() {
+    let opc: u8 = kani::any();
+    kani::assume(is_jump(opc) || opc == OP_EXIT);
+    let insn = ebpf::Insn { opc, dst: kani::any(), src: kani::any(), off: kani::any(), imm: kani::any() };
+    let si = SInsn { opc, dst: insn.dst, src: insn.src, off: insn.off, imm: insn.imm };
+    let (pc, n): (usize, usize) = (kani::any(), kani::any());
+    kani::assume(wf_facts(&si, pc, n));
+    unsafe { ORACLE = Oracle { load_data: 0, call_ret: 0, params: [0; 4], stack_base: 0, init_vars: [0; 24] }; }
+    let helpers: HashMap<u32, ebpf::Helper> = HashMap::new();
+    let mut c = CraneliftCompiler::new(helpers);
+    let sig = Signature { params: vec![AbiParam::new(I64)], returns: vec![AbiParam::new(I64)], call_conv: c.isa.default_call_conv() };
+    let mut func = Function::with_name_signature(UserFuncName::testcase("h".as_bytes()), sig);
+    let mut fctx = FunctionBuilderContext::new();
+    let mut bcx = FunctionBuilder::new(&mut func, &mut fctx);
+    // any earlier state of the block table that does not fill it (other instructions were processed before)
+    let prior: bool = kani::any();
+    let pk: u32 = kani::any();
+    if prior { let b = bcx.create_block(); c.insn_blocks.insert(pk, b); }
+    let blocks_before = bcx.t.nblocks;
+    c.prepare_jump_blocks(&mut bcx, pc, &insn);
+    let want_target = if opc == OP_EXIT { pc as u32 + 1 } else { (pc as i64 + 1 + insn.off as i64) as u32 };
+    let clause: u8 = kani::any();
+    match clause {
+        0 => {
+            let e = c.insn_targets.get(&(pc as u32));
+            assert!(matches!(e, Some((f, t)) if c.insn_blocks.get(&(pc as u32 + 1)) == Some(f) && c.insn_blocks.get(&want_target) == Some(t)),
+                    "ensures: the instruction is mapped to the block of pc+1 (fall-through) and the block of pc+1+off (target)");
+        }
+        1 => assert!(bcx.t.nblocks - blocks_before <= 2 && (!prior || c.insn_blocks.get(&pk).is_some()), "ensures: at most two blocks are created and existing entries are kept"),
+        _ => assert!(!prior || (pk != pc as u32 + 1 && pk != want_target) || bcx.t.nblocks - blocks_before <= 1, "ensures: an existing block for a continuation point is reused, not replaced"),
+    }
+}
+
 /// vacuity guard for the environment assumptions of run_clif (they do not depend on the opcode)
 #[kani::proof]
 fn clif_env_precondition_satisfiable() {
